@@ -103,6 +103,7 @@ void h_work(void)
 
 #ifndef ENV_RUNS_DEFINED
 void env_runs(pthread_mutex_t *m) { }
+int g_iter_stop; void verif_iteration_end(int which) { __CPROVER_assume(0); }   /* thread-loop harnesses live in h_proc.c */
 #endif
 
 #ifdef VERIF_REPLAY
